@@ -87,7 +87,8 @@ def t_timeout(r, name):
     body = "func %s() uint64 {\n\tmu := new(sync.Mutex)\n\tcond := sync.NewCond(mu)\n\tvar ready bool = false\n\tvar waited bool = false\n" % name
     body += "\tgo func() {\n\t\tmachine.Sleep(%d)\n\t\tmu.Lock()\n\t\tready = true\n\t\tcond.%s()\n\t\tmu.Unlock()\n\t}()\n" % (r.choice([30000000, 50000000]), r.choice(["Signal", "Broadcast"]))
     body += "\tmu.Lock()\n\tfor !ready {\n\t\tmachine.WaitTimeout(cond, %d)\n\t\twaited = true\n\t}\n\tmu.Unlock()\n" % r.choice([3, 5, 8])
-    body += "\tmu.Lock()\n\tmu.Unlock()\n\tif waited {\n\t\treturn %d\n\t}\n\treturn %d\n}\n" % (7, 7)
+    # the mutex must still be usable afterwards (helper goroutines of timed-out waits wake up late)
+    body += "\tfor i := uint64(0); i < 10; i++ {\n\t\tmachine.Sleep(2000000)\n\t\tmu.Lock()\n\t\tmu.Unlock()\n\t}\n\tif waited {\n\t\treturn %d\n\t}\n\treturn %d\n}\n" % (7, 7)
     return body, True
 
 
@@ -132,7 +133,7 @@ def package(seed, nfuncs=6):
     r = random.Random(seed)
     fns = []
     for k in range(nfuncs):
-        t = TEMPLATES[(seed + k) % len(TEMPLATES)] if k < 2 else r.choice(TEMPLATES)
+        t = t_timeout if k == 0 else TEMPLATES[(seed + k) % len(TEMPLATES)] if k < 3 else r.choice(TEMPLATES)
         src, det = t(r, "c%d" % k)
         fns.append(("c%d" % k, t.__name__, src, det))
     body = "\n".join(f[2] for f in fns)
@@ -168,7 +169,7 @@ def native_outcomes(root, fns, runs, race):
 
 def check(ctx, build=None):
     if build is None:
-        build = C.ensure_built("C03", ["translator"], need_harness=False, extra_go=gomod.EXTRA_GO)
+        build = C.ensure_built("C03", ["guards"], need_harness=False, extra_go=gomod.EXTRA_GO)
     if not build.driver_ok:
         raise C.Infra("the Lean driver does not build")
     scratch = C.scratch()
